@@ -139,7 +139,8 @@ Definition restored (s : st) : st * list out :=
   let c := ch s in
   let g := gh s in
   let bc := if funder g && negb (confirmed g) then [ORel RFundingBroadcast (base g)] else [] in
-  let cr := if p_cr c then [ORel RChannelReady (base g)] else [] in
+  (* ChannelManager::send_channel_ready drops the message when the peer is not connected *)
+  let cr := if p_cr c && negb (pd c) then [ORel RChannelReady (base g)] else [] in
   let fw := map (ORel RForward) (p_fwd c) in
   let raa := if p_raa c then [ORel RRaa (lastH g)] else [] in
   let cs := if p_cs c then [ORel RCs (lastK g)] else [] in
@@ -203,6 +204,7 @@ Inductive label :=
 | LQueue (it : hitem)
 | LFreeHold (drop_all : bool) (v : verdict)
 | LClaim (v : verdict)
+| LDupClaim
 | LRecvCS (need_commit : bool) (v : verdict)
 | LRecvRAA (held : bool) (drop_all : bool) (req_commit : bool) (nfwd : nat) (v : verdict)
 | LUnblock (v : verdict)
@@ -284,6 +286,13 @@ Definition step (s : st) (l : label) : st * list out :=
                          on_gh (g_lastK id) (on_ch (fun c => c_blocked (blocked c ++ [mkUpd id [KCparty]]) c) s2') in
           let s4 := on_mg (fun m => m_acts (acts m ++ [new_id]) m) (paused false (negb blocked_upd) false [] s3) in
           handle_new_update (mkUpd new_id [KPreimage]) v s4
+  | LDupClaim =>
+      (* claim_mpp_part, UpdateFulfillCommitFetch::DuplicateClaim: the completion action waits for the updates
+         in flight, or runs at once when there are none *)
+      match rev (inflight (mg s)) with
+      | [] => (s, [ORel RAction (latest c)])
+      | i :: _ => (on_mg (fun m => m_acts (acts m ++ [i]) m) s, [])
+      end
   | LRecvCS need v =>
       (* commitment_signed -> commitment_signed_update_monitor *)
       if negb (is_ready c) || pd c then err s
@@ -372,7 +381,8 @@ Definition step (s : st) (l : label) : st * list out :=
       if our_cr c then (s, [])
       else
         let s1 := on_gh (g_confirmed true) (on_ch (c_our_cr true) s) in
-        if mip c then (on_ch (c_p_cr true) s1, []) else (s1, [ORel RChannelReady (base (gh s))])
+        if mip c then (on_ch (c_p_cr true) s1, [])
+        else if pd c then (s1, []) else (s1, [ORel RChannelReady (base (gh s))])
   | LRecvChannelReady => (on_ch (c_their_cr true) s, [])
   end.
 
